@@ -334,6 +334,9 @@ def api_log(rng, T):
     spec["device"]["table"] = device_table(rng, T, ["SYS"] + present, p_answer=0.5)
     spec["device"]["latency"] = rng.choice([0.0, 0.02, 0.06])
     spec["device"].pop("swallow_first", None)
+    # (no unsolicited reports here: a volunteered line with the text of a later reply cannot be told from that reply in the log, and the rule
+    # "no reply listed before the command that caused it" is judged by text)
+    spec["device"].pop("unsolicited", None)
     spec["device"]["model"] = "RX-V473"
     spec["log_size"] = rng.choice([1, 3, 10, 40, 400])
     spec["check_first"] = rng.choice([0, 1, 1, 2])
